@@ -104,6 +104,10 @@ type SeedInlineIfc struct {
 	I interface{} `struct:",inline"`
 	B string
 }
+type seedInlineIfc2 struct {
+	X int
+	I interface{} `struct:",inline"`
+}
 type SeedInlinePtr struct {
 	P *seedInner2 `struct:",inline"`
 	Q int
@@ -324,6 +328,13 @@ func seeds() []seed {
 		{"SeedInlineFolderP", []interface{}{SeedInlineFolderP{F: &SeedFolderP{2}, B: 1}, SeedInlineFolderP{B: 1}}, nil, nil},
 		{"SeedInlineIfc", []interface{}{SeedInlineIfc{B: "b"}, SeedInlineIfc{I: map[string]interface{}{"k": 1}, B: "b"}, SeedInlineIfc{I: seedInner2{X: 1}, B: "b"}, SeedInlineIfc{I: &seedInner2{X: 2, M: map[string]bool{"t": true}}, B: "b"},
 			SeedInlineIfc{I: 5, B: "b"}, SeedInlineIfc{I: SeedFolderV{4}, B: "b"}}, nil, nil},
+		// an inlined interface{} whose dynamic value again has an inlined interface{} / inlined Folder (same and different struct types, 2 and 3 levels)
+		{"SeedInlineNested", []interface{}{SeedInlineIfc{I: SeedInlineIfc{I: map[string]interface{}{"k": 1}, B: "inner"}, B: "outer"},
+			SeedInlineIfc{I: seedInlineIfc2{X: 1, I: map[string]interface{}{"z": 3}}, B: "b"}, SeedInlineIfc{I: seedInlineIfc2{X: 1}, B: "b"},
+			SeedInlineIfc{I: &seedInlineIfc2{X: 1, I: seedInlineIfc2{X: 2, I: map[string]int{"q": 1}}}, B: "b"},
+			SeedInlineIfc{I: SeedInlineIfc{I: SeedInlineIfc{I: map[string]interface{}{"deep": true}, B: "3"}, B: "2"}, B: "1"},
+			SeedInlineIfc{I: SeedInlineFolderV{A: 1, F: SeedFolderV{2}}, B: "b"}, seedInlineIfc2{X: 1, I: SeedInlineFolderV{A: 1, F: SeedFolderV{2}}},
+			[]interface{}{SeedInlineIfc{I: seedInlineIfc2{X: 1, I: map[string]interface{}{"z": 3}}, B: "b"}, SeedInlineIfc{I: map[string]interface{}{"k": 1}, B: "after"}}}, nil, nil},
 		{"SeedInlinePtr", []interface{}{SeedInlinePtr{Q: 1}, SeedInlinePtr{P: &seedInner2{X: 1, M: map[string]bool{"m": false}}, Q: 2}}, nil, nil},
 		{"SeedCustomHolder", []interface{}{SeedCustomHolder{C: SeedCustom{1}, P: &SeedCustom{2}, In: SeedCustom{3}}, SeedCustomHolder{}, SeedCustom{4}, &SeedCustom{5}, []SeedCustom{{6}}, map[string]*SeedCustom{"k": {7}}},
 			[]gotype.FoldOption{gotype.Folders(foldSeedCustom)}, nil},
